@@ -68,7 +68,8 @@ def gen(rng, tier, i):
             lane_map = [perm[l] if l < n2 else None for l in range(sims)]
             pairs.append({'kind': 'lanes', 'sims2': n2, 'lane_map': lane_map, 'cls': rng.choice(['cpu', 'gpu'])})
         elif kind == 'k':
-            if sims > 1: pairs.append({'kind': 'k', 'k': rng.randint(1, sims - 1), 'cls': rng.choice(['cpu', 'gpu']), 'block': wavegen.gen_block(rng)})
+            if sims > 1: pairs.append({'kind': 'k', 'k': rng.randint(1, sims - 1), 'cls': rng.choice(['cpu', 'gpu']), 'block': wavegen.gen_block(rng),
+                                       'only': [0] if len(batches) > 1 and rng.random() < 0.5 else None})
         elif kind == 'restore':
             if len(batches) > 1:
                 pairs.append({'kind': 'restore', 'cls': rng.choice(['cpu', 'gpu']), 'after': sorted(set(rng.randrange(len(batches) - 1) for _ in range(rng.randint(1, 2)))),
@@ -199,6 +200,7 @@ def execute(case):
             k = p['k']
             res.probe('k_lt_sims')
             cfgB = dict(base, cls=p['cls'], k=k)
+            if p.get('only') is not None: cfgB['k_only_batches'] = p['only']      # restricted in these batches only: the later ones propagate all lanes again
             if p['cls'] == 'gpu': cfgB['block'] = p['block']
             h2, o2 = wsim.run_config(built, case, cfgB, res, monitors=('M3',))
             res.fault('F-lanes-k'); differ += 1
@@ -206,6 +208,11 @@ def execute(case):
             if p['cls'] != 'cpu':
                 h1, cA = wsim.run_config(built, case, dict(base, cls=p['cls']), res, monitors=())
             # a state transfer followed by keep_s mixes propagated and unpropagated lanes only lane-wise: still comparable
+            if p.get('only') is not None and not any(b.get('keep_s') for b in case['batches']):
+                # later, unrestricted batches must be right in every lane (the restriction must not stick to the object)
+                if not cmp_ports(res, 'first-k-lanes-changes-result', f'c_prop(sims={k}) in batch {p["only"]} only vs full ({p["cls"]})', cA[1:], o2[1:], ident, s_rows=((3, 8),)): return res
+                if not cmp_ports(res, 'first-k-lanes-changes-result', f'c_prop(sims={k}) vs full ({p["cls"]})', cA[:1], o2[:1], [(l, l) for l in range(k)]): return res
+                continue
             if not cmp_ports(res, 'first-k-lanes-changes-result', f'c_prop(sims={k}) vs full ({p["cls"]})', cA, o2, [(l, l) for l in range(k)]): return res
             for bno, (a, b) in enumerate(zip(cA, o2)):
                 if not np.array_equal(a['abuf'][:, :k], b['abuf'][:, :k]) and a['abuf'].shape == b['abuf'].shape and a['abuf'].shape[1] >= k:
